@@ -242,6 +242,24 @@ Proof.
   intros E1 E2. rewrite !probe_char, E1. now rewrite (existsb_ext' _ _ _ E2).
 Qed.
 
+(* Stat/Open follow a final symbolic link; where the path is not a link they are lstat *)
+Definition not_link (r : res ent) : Prop := match r with Ok (ELink _ _) => False | _ => True end.
+
+Lemma probe_f_eq p s : not_link (probe p s) -> probe_f p s = probe p s.
+Proof.
+  unfold probe_f. cbn [probe_follow]. destruct (probe p s) as [[m|m b|m t]|e]; cbn [not_link]; try reflexivity.
+  intros [].
+Qed.
+
+Lemma probe_of_stat p s e : stat p s = Some e -> probe p s = Ok e.
+Proof. intros S. now rewrite probe_char, S. Qed.
+
+Lemma probe_f_file p s m b : stat p s = Some (EFile m b) -> probe_f p s = Ok (EFile m b).
+Proof. intros S. rewrite probe_f_eq; rewrite (probe_of_stat _ _ _ S); [reflexivity|exact I]. Qed.
+
+Lemma not_link_of_stat_none p s : stat p s = None -> not_link (probe p s).
+Proof. intros S. rewrite probe_char, S. exact I. Qed.
+
 (* ---------- MkdirAll as a list of ensure_dir steps ---------- *)
 
 Lemma ensure_dir_ok_cases p s s' : ensure_dir p s = Ok s' -> is_dir (stat p s) = true \/ stat p s = None.
@@ -384,16 +402,19 @@ Section StoreProofs.
     store_chunk st rs i plain s = (s', None) ->
     st_base st2 = st_base st -> wf_id j -> wf_id i ->
     (j <> i \/ st_unc st2 <> st_unc st) ->
+    not_link (probe (snd (name_from_id st2 j)) s) ->
     get_chunk st2 j s' = get_chunk st2 j s /\ has_chunk st2 j s' = has_chunk st2 j s /\
     get_data st2 j s' = get_data st2 j s.
   Proof.
-    intros E B Wj Wi D.
+    intros E B Wj Wi D NL.
     assert (P : probe (snd (name_from_id st2 j)) s' = probe (snd (name_from_id st2 j)) s).
     { apply (store_chunk_probe_frame _ _ _ _ _ _ _ E).
       - rewrite !name_length. now rewrite B.
       - intros X. destruct st as [b1 z1 k1], st2 as [b2 z2 k2]. cbn [st_base st_unc] in *. subst b2.
         apply name_from_id_inj in X; [|exact Wj|exact Wi]. destruct X as [-> ->]. destruct D; congruence. }
-    unfold LocalStore.get_data, LocalStore.get_chunk, has_chunk, read_file. rewrite P. repeat split; reflexivity.
+    assert (PF : probe_f (snd (name_from_id st2 j)) s' = probe_f (snd (name_from_id st2 j)) s)
+      by (rewrite !probe_f_eq; [exact P|exact NL|rewrite P; exact NL]).
+    unfold LocalStore.get_data, LocalStore.get_chunk, has_chunk, read_file. rewrite PF. repeat split; reflexivity.
   Qed.
 
   (* RemoveChunk through a store of one (id, format) changes nothing that a store on the same directory
@@ -402,11 +423,12 @@ Section StoreProofs.
     remove_chunk st j s = RmOk s' ->
     st_base st2 = st_base st -> wf_id i -> wf_id j ->
     (i <> j \/ st_unc st2 <> st_unc st) ->
+    not_link (probe (snd (name_from_id st2 i)) s) ->
     get_chunk st2 i s' = get_chunk st2 i s /\ has_chunk st2 i s' = has_chunk st2 i s.
   Proof.
     unfold remove_chunk. set (p := snd (name_from_id st j)).
-    destruct (probe p s) as [en|e]; [|discriminate].
-    destruct (remove p s) as [s1|e] eqn:R; [|discriminate]. intros E B Wi Wj D. inversion E; subst s1. clear E.
+    destruct (probe_f p s) as [en|e]; [|discriminate].
+    destruct (remove p s) as [s1|e] eqn:R; [|discriminate]. intros E B Wi Wj D NL. inversion E; subst s1. clear E.
     assert (U : forall q, stat q s' = if path_eqb q p then None else stat q s).
     { unfold remove in R. destruct (resolve p s) as [[m l|m b|m t]|e] eqn:RS;
         try (intros q; apply (proj2 (stat_unlink _ _ _ R))).
@@ -423,7 +445,9 @@ Section StoreProofs.
       - intros q I. apply in_sprefixes_length in I. rewrite U.
         replace (path_eqb q p) with false; [reflexivity|]. symmetry. apply path_eqb_neq. intros ->.
         unfold p in I. rewrite !name_length, B in I. lia. }
-    unfold LocalStore.get_chunk, has_chunk, read_file. rewrite P. split; reflexivity.
+    assert (PF : probe_f (snd (name_from_id st2 i)) s' = probe_f (snd (name_from_id st2 i)) s)
+      by (rewrite !probe_f_eq; [exact P|exact NL|rewrite P; exact NL]).
+    unfold LocalStore.get_chunk, has_chunk, read_file. rewrite PF. split; reflexivity.
   Qed.
 
   Hypothesis z_law : forall x b, zcomp x = Some b -> zdecomp b = Some x.
@@ -437,8 +461,8 @@ Section StoreProofs.
               has_chunk st i s' = HasYes.
   Proof.
     intros E HI. destruct (store_chunk_stat _ _ _ _ _ _ E) as (b & NE & TS & S). exists b. split; [exact TS|].
-    assert (P : probe (snd (name_from_id st i)) s' = Ok (EFile meta0 b)).
-    { rewrite probe_char, S, path_eqb_refl. reflexivity. }
+    assert (P : probe_f (snd (name_from_id st i)) s' = Ok (EFile meta0 b)).
+    { apply probe_f_file. now rewrite S, path_eqb_refl. }
     assert (SD : storage_data zdecomp (st_unc st) b = Some plain).
     { unfold storage_data, to_storage, from_storage in *. destruct (st_unc st).
       - inversion TS; subst b. destruct plain; [congruence|reflexivity].
